@@ -65,7 +65,8 @@ fn parse_cfg_if_inner<'a>(
         {
             let item = match parser.parse_item(ForceCollect::No) {
                 Ok(Some(item_ptr)) => item_ptr.into_inner(),
-                Ok(None) => continue,
+                // Nothing was parsed and nothing was consumed: what follows is not an item.
+                Ok(None) => return Err("Expected item, but found something else"),
                 Err(err) => {
                     err.cancel();
                     parser.psess.dcx().reset_err_count();
